@@ -291,11 +291,85 @@ def run(R):
         R.counterexample('other-grammars', 'extending-grammar-alters-parent', {'step': 'Grammar(child extends base)'}, before, mid)
     if after != before:
         R.counterexample('other-grammars', 'name-reuse-alters-existing-module', {'step': 'Grammar with the same name'}, before, after)
+    # ---- sequences of constructions in which a name is used again ----
+    # (1) parent P, child C, another description under P's name, the SAME text of C again: the second C is built on
+    #     the new P (what `extends P` denotes when it is compiled), the first C stays as it was;
+    # (2) base, mid, another description under base's name, then a new leaf extending the EXISTING mid module: the leaf
+    #     behaves like a leaf of a chain with the old base (mid was not altered).
+    # Expected outcomes come from twins compiled under names that are used only once.
+    NR_TEXTS = ['hello world', 'helloworld', 'hello  world', 'hello', 'hello worldhello world', 'hello world hello you', '', '12', 'bye you', 'bye  you']
+
+    def nr_obs(m, entries):
+        out = []
+        for en in entries:
+            f = m.parse if en is None else getattr(getattr(m, en, None), 'parse', None)
+            for t in NR_TEXTS:
+                if f is None:
+                    out.append('no entry ' + str(en))
+                    continue
+                try:
+                    out.append('return ' + canon(f(t)))
+                except m.PartialParseError as e:
+                    out.append('partial %s at %r' % (canon(e.partial_result), tuple(e.last_position)))
+                except m.ParseError as e:
+                    out.append('error at %r' % (tuple(e.position),))
+                except Exception as e:          # noqa
+                    out.append('exception ' + type(e).__name__)
+        return out
+
+    def build(descs):
+        try:
+            return [Grammar(d) for d in descs][-1]
+        except Exception as e:                  # noqa
+            return 'construction raised ' + type(e).__name__ + ': ' + str(e)[:100]
+    Pa = 'grammar {p}\nstart = Greeting+\nGreeting = "hello" >> Word\nWord = /[a-z]+/\n'
+    Pb = 'grammar {p}\nignore /[ \\t]+/\nstart = Greeting+\nGreeting = "hello" >> Word\nWord = /[a-z]+/\nExtra = "x"\n'
+    Cd = 'grammar {c} extends {p}\nTwo = [Greeting, Greeting]\n'
+    Md = 'grammar {m} extends {p}\nTwo = [Greeting, Greeting]\n'
+    Ld = 'grammar {l} extends {m}\nBye = "bye" >> Word\n'
+    EN1, EN2 = [None, 'Greeting', 'Two', 'Word'], [None, 'Greeting', 'Two', 'Bye']
+    for rep in range(2):
+        tag = f'c18nr{rep}'
+        # (1)
+        build([Pa.format(p=tag + 'p')])
+        c1 = build([Cd.format(c=tag + 'c', p=tag + 'p')])
+        o1 = nr_obs(c1, EN1) if not isinstance(c1, str) else [c1]
+        build([Pb.format(p=tag + 'p')])
+        c2 = build([Cd.format(c=tag + 'c', p=tag + 'p')])
+        o2 = nr_obs(c2, EN1) if not isinstance(c2, str) else [c2]
+        o1_after = nr_obs(c1, EN1) if not isinstance(c1, str) else [c1]
+        t2 = build([Pb.format(p=tag + 'q'), Cd.format(c=tag + 'd', p=tag + 'q')])
+        w2 = nr_obs(t2, EN1) if not isinstance(t2, str) else [t2]
+        R.count('name-reuse', (rep, 'same-child-text-after-new-parent'), nontrivial=True)
+        if o2 != w2:
+            i = next((i for i, (a, b) in enumerate(zip(w2, o2)) if a != b), 0)
+            R.counterexample('name-reuse', 'module-depends-on-earlier-constructions',
+                             {'sequence': [Pa.format(p=tag + 'p'), Cd.format(c=tag + 'c', p=tag + 'p'), Pb.format(p=tag + 'p'), Cd.format(c=tag + 'c', p=tag + 'p')],
+                              'entry': EN1[i // len(NR_TEXTS)] or 'parse', 'text': NR_TEXTS[i % len(NR_TEXTS)],
+                              'note': 'expected = the last two descriptions compiled under names used once'}, w2[i:i + 1], o2[i:i + 1])
+        R.count('name-reuse', (rep, 'existing-child-unaltered'), nontrivial=True)
+        if o1_after != o1:
+            R.counterexample('name-reuse', 'name-reuse-alters-existing-module', {'sequence': 'P, C, P again (other text), C again; the first C observed before and after'}, o1, o1_after)
+        # (2)
+        build([Pa.format(p=tag + 'b')])
+        build([Md.format(m=tag + 'm', p=tag + 'b')])
+        build([Pb.format(p=tag + 'b')])
+        l2 = build([Ld.format(l=tag + 'l', m=tag + 'm')])
+        o3 = nr_obs(l2, EN2) if not isinstance(l2, str) else [l2]
+        t3 = build([Pa.format(p=tag + 'e'), Md.format(m=tag + 'f', p=tag + 'e'), Ld.format(l=tag + 'g', m=tag + 'f')])
+        w3 = nr_obs(t3, EN2) if not isinstance(t3, str) else [t3]
+        R.count('name-reuse', (rep, 'new-leaf-of-existing-module'), nontrivial=True)
+        if o3 != w3:
+            i = next((i for i, (a, b) in enumerate(zip(w3, o3)) if a != b), 0)
+            R.counterexample('name-reuse', 'leaf-of-existing-module-depends-on-later-constructions',
+                             {'sequence': [Pa.format(p=tag + 'b'), Md.format(m=tag + 'm', p=tag + 'b'), Pb.format(p=tag + 'b'), Ld.format(l=tag + 'l', m=tag + 'm')],
+                              'note': 'the middle module exists and was not altered; expected = the chain base(old text), mid, leaf under names used once'},
+                             w3[i:i + 1], o3[i:i + 1])
     R.assumptions += ['CPython thread scheduling and any shared state the model does not know about are only observed, not proved absent',
                       'inline Python of the raising grammar raises a dedicated exception for the input "x"']
     return R.finish(
         rule='histories of 2-30 calls on 1-3 of five modules (different texts, offsets, fullparse values, some abandoned because inline '
              'Python raises), every outcome compared with the same call on a freshly built module; 2-8 threads x 150 calls on shared modules '
              'with a 1 microsecond switch interval; nested parses started from |>, where, a class field, requires and the module-level '
-             'parse; compiling an extending grammar and a grammar re-using the name; 3-8 threads constructing grammars at the same time (constructor names used as rule names in one and as constructors in another, deep bodies, templates, tables)',
+             'parse; compiling an extending grammar and a grammar re-using the name; 3-8 threads constructing grammars at the same time (constructor names used as rule names in one and as constructors in another, deep bodies, templates, tables); sequences of constructions that use a name again (same child text after a new parent; a new leaf of an existing middle module)',
         checker_cmd='cd /verif/coq && make -f Makefile.coq && coqc -R . SV Props/C18.v')
